@@ -373,8 +373,8 @@ func readBlockString(s *source.Source, start int) (Token, error) {
 			y, _ := runeAt(body, position+2)
 			z, _ := runeAt(body, position+3)
 			if x == '"' && y == '"' && z == '"' {
-				stringContent := append(body[chunkStart:position], []byte(`"""`)...)
-				valueBuffer.Write(stringContent)
+				valueBuffer.Write(body[chunkStart:position])
+				valueBuffer.WriteString(`"""`)
 				position += 4     // account for `"""` characters
 				runePosition += 4 // "       "   "     "
 				chunkStart = position
